@@ -142,6 +142,49 @@ func JDom(n int) *Dom[J] {
 	return d
 }
 
+// PS / *PS: pointer elements whose String method dereferences its receiver.
+// fmt shields callers from nil receivers ("<nil>"); code that calls String()
+// itself does not. The nil pointer is a perfectly good element.
+type PS struct{ Name string }
+
+func (p *PS) String() string { return "PS(" + p.Name + ")" }
+
+func psCmp(a, b *PS) int {
+	switch {
+	case a == nil && b == nil:
+		return 0
+	case a == nil:
+		return -1
+	case b == nil:
+		return 1
+	}
+	return strings.Compare(a.Name, b.Name)
+}
+
+var psPool = []*PS{nil, {"a"}, {"b"}, {"c"}, {"d"}, {"e"}, {"f"}, {"g"}}
+
+// PDom: the alphabet is a fixed pool of pointers, the first of which is nil.
+func PDom() *Dom[*PS] {
+	d := &Dom[*PS]{Name: "pointer", Fmt: func(v *PS) string { return fmt.Sprint(v) }}
+	d.Cmps = []NamedCmp[*PS]{{"natural", psCmp}, {"reversed", func(a, b *PS) int { return psCmp(b, a) }}, {"natural", psCmp}, {"natural", psCmp}}
+	d.Alpha = append(d.Alpha, psPool...)
+	d.Probe = []*PS{{"zz"}, {""}, {"a"}}
+	d.Wide = func(r *core.R) *PS { return &PS{Name: string(rune('a' + r.Intn(26)))} }
+	return d
+}
+
+// FDom: float elements including NaN and the infinities (values encoding/json
+// refuses to encode; keys that are not equal to themselves).
+func FDom() *Dom[float64] {
+	d := &Dom[float64]{Name: "float", Fmt: func(v float64) string { return fmt.Sprint(v) }}
+	fc := func(a, b float64) int { return cmp.Compare(a, b) }
+	d.Cmps = []NamedCmp[float64]{{"natural", fc}, {"reversed", func(a, b float64) int { return fc(b, a) }}, {"natural", fc}, {"natural", fc}}
+	d.Alpha = []float64{0, 1.5, math.NaN(), -2.25, math.Inf(1), math.Inf(-1), 1e300, 3}
+	d.Probe = []float64{0.5, math.NaN(), -1e-300}
+	d.Wide = func(r *core.R) float64 { return float64(r.Intn(1<<20)) / 8 }
+	return d
+}
+
 // SK is a struct element/key type (comparable, no natural order): generic
 // code must not depend on the element being a built-in scalar.
 type SK struct {
